@@ -2,7 +2,7 @@
    when nothing is open. *)
 From Coq Require Import List NArith Bool Lia Arith String.
 Import ListNotations.
-Require Import Xhtml Exp Proc1 Proc2 Proc3 Ctl Loop Eqd Tok Inv EqF.
+Require Import Xhtml Exp Proc1 Proc2 Proc3 Ctl Loop Eqd Tok Inv EqF InvI TocStr FragB.
 Open Scope N_scope.
 
 Lemma err_not_quiet k s : quiet s = false -> exists d, err k s = s <| diags ::= cons d |> /\ d_kind d = runes k.
@@ -192,4 +192,125 @@ Proof. induction f as [|f IH]; intros s Hf Hm Hp Hq Hl.
       split; [rewrite app_length, B, Hsi3, pop_length'; cbn [List.length]; destruct (sinline s) as [|x r]; [discriminate Et|cbn [List.length]; lia]|].
       split; [apply Forall_app; split; [exact C|constructor; [exact Hk|constructor]]|exact D].
 Qed.
+
+(* ---------- blocks (display blocks, as in the sub-language of FragB.v): macroEd logs nothing under quiet ---------- *)
+Lemma QS_close_inline_loop cur : forall f s, fmt s = FX -> markup_ok (mtags s) -> quiet s = true -> QS s (close_inline_loop f cur s).
+Proof. induction f as [|f IH]; intros s Hf Hm H; [apply QS_refl, H|]. cbn [close_inline_loop].
+  destruct (top (sinline s)) as [sc|]; [|apply QS_refl, H].
+  set (sm := s <| macro := cur |>).
+  assert (Esm : err "unclosed scope" sm = sm) by (apply err_quiet; exact H). unfold warn_unclosed. rewrite Esm.
+  set (s2 := sm <| macro := R "Em" |> <| args := tag_args (sc_tag sc) |>).
+  change (quiet s2) with (quiet s). rewrite H.
+  set (s2q := s2 <| quiet := true |>).
+  assert (Hf2 : fmt s2q = FX) by exact Hf. assert (Hm2 : markup_ok (mtags s2q)) by exact Hm.
+  pose proof (QS_macro_em s2q Hf2 eq_refl) as H3. destruct (macro_em_eqf s2q Hf2 Hm2) as [F _].
+  set (s3 := macro_em s2q <| quiet := true |> <| args := [] |>).
+  assert (H3' : QS s s3) by (split; [reflexivity|exact (proj2 H3)]).
+  eapply QS_trans; [exact H3'|]. apply IH; [|change (mtags s3) with (mtags (macro_em s2q)); rewrite (mtags_eqf _ _ F); exact Hm|reflexivity].
+  unfold fmt. change (format s3) with (format (macro_em s2q)). rewrite (eqf_get format _ _ (fun _ => eq_refl) F). exact Hf. Qed.
+Lemma quiet_regs r m a : quiet (r <| macro := m |> <| args := a |>) = quiet r. Proof. destruct r; reflexivity. Qed.
+Lemma diags_regs r m a : diags (r <| macro := m |> <| args := a |>) = diags r. Proof. destruct r; reflexivity. Qed.
+Lemma QS_close_unclosed_inline s : fmt s = FX -> markup_ok (mtags s) -> quiet s = true -> QS s (close_unclosed_inline s).
+Proof. intros Hf Hm H. unfold close_unclosed_inline. destruct (sinline s) as [|x l]; [apply QS_refl, H|].
+  cbv zeta.
+  match goal with |- context [close_inline_loop ?f ?c ?y] =>
+    assert (Hfy : fmt y = FX) by exact Hf; assert (Hmy : markup_ok (mtags y)) by exact Hm; assert (Hqy : quiet y = true) by exact H;
+    pose proof (QS_close_inline_loop c f y Hfy Hmy Hqy) as [A B]; assert (Hdy : diags y = diags s) by reflexivity end.
+  split; [rewrite quiet_regs; exact A|rewrite diags_regs, B; exact Hdy]. Qed.
+Lemma QS_end_par b s : fmt s = FX -> quiet s = true -> QS s (end_par b s).
+Proof. intros Hf H. unfold end_par. destruct (par s); [|apply QS_refl, H]. cbv zeta.
+  set (s' := process_paragraph s).
+  assert (H1 : QS s s') by (split; [exact H|reflexivity]).
+  assert (Hf1 : fmt s' = FX) by exact Hf.
+  destruct (scope_verse s' && verse s').
+  - unfold end_stanza. rewrite Hf1. unfold X.end_stanza, X.end_paragraph.
+    set (a := w (R "</span>" ++ NLs) s'). set (a2 := w (R "</p>" ++ NLs) a).
+    assert (Ha : QS s a) by (eapply QS_trans; [exact H1|apply QS_w; exact (proj1 H1)]).
+    assert (Hb : QS s a2) by (eapply QS_trans; [exact Ha|apply QS_w; exact (proj1 Ha)]).
+    eapply QS_trans; [exact Hb|]. apply QS_setter; [reflexivity|reflexivity|exact (proj1 Hb)].
+  - unfold end_paragraph. rewrite Hf1. unfold X.end_paragraph.
+    destruct b; try exact H1; (eapply QS_trans; [exact H1|apply QS_w; exact (proj1 H1)]).
+Qed.
+
+Section Blocks.
+Variable K : tocinfo * list lox.
+Variable BASE : list str.
+Variable MD : nat.
+Local Notation P := (FragB.P K BASE MD).
+
+Lemma QS_macro_ed s : P true s -> quiet s = true -> QS s (macro_ed s).
+Proof. intros HP H. pose proof HP as (HS & Hsb & Hpr & _). unfold macro_ed. destruct (closer_fuel_S s) as [f ->]. rewrite closers_ed, closers_cub.
+  unfold ed_body. rewrite (scope_verse_bd _ Hsb), Hpr. cbn [negb].
+  pose proof (QS_parse_opts specOptEd (args s) s H) as H1. pose proof (parse_opts_eqd specOptEd (args s) s) as E1.
+  destruct (parse_opts specOptEd (args s) s) as [o s1]. cbn [snd] in H1, E1.
+  set (s2 := match po_args o with [] => s1 | _ => err "useless arguments" s1 end).
+  assert (H2 : QS s s2 /\ s2 ~~ s).
+  { unfold s2. destruct (po_args o); [split; assumption|]. rewrite (err_quiet _ s1 (proj1 H1)). split; assumption. }
+  destruct H2 as [H2 E2]. clearbody s2.
+  destruct (last_scope "Bd" (sblock s2)) as [sc|]; [|eapply QS_trans; [exact H2|apply QS_err, H2]].
+  set (s3 := match opt "t" o with
+             | Some t => let '(tx, s') := inlines_text t s2 in if str_eqb tx (sc_tag sc) then s' else err "tag mismatch" s'
+             | None => if sc_req sc then err "missing required tag" s2 else s2
+             end).
+  assert (H3 : QS s s3 /\ s3 ~~ s).
+  { unfold s3. destruct (opt "t" o) as [t|].
+    - pose proof (QS_inlines_text t s2 (proj1 H2)) as Ht. pose proof (inlines_text_eqd t s2) as Et. destruct (inlines_text t s2) as [tx s']. cbn [snd] in Ht, Et.
+      assert (Es' : s' ~~ s) by (eapply eqd_trans; eauto).
+      destruct (str_eqb tx (sc_tag sc)); [split; [eapply QS_trans; eauto|exact Es']|].
+      rewrite (err_quiet _ s' (proj1 Ht)). split; [eapply QS_trans; eauto|exact Es'].
+    - destruct (sc_req sc); [rewrite (err_quiet _ s2 (proj1 H2))|]; split; assumption. }
+  destruct H3 as [H3 E3]. clearbody s3.
+  assert (Hf3 : fmt s3 = FX) by (rewrite (Inv.fmt_eqd _ _ E3); exact (sd_fmt _ _ _ _ HS)).
+  assert (Hm3 : markup_ok (mtags s3)) by (rewrite (eqd_get mtags _ _ (fun _ => eq_refl) E3); exact (sd_mk _ _ _ _ HS)).
+  pose proof (QS_close_unclosed_inline s3 Hf3 Hm3 (proj1 H3)) as H4.
+  pose proof (close_unclosed_inline_eqf s3 Hf3 Hm3) as F4.
+  set (s4 := close_unclosed_inline s3) in *. clearbody s4.
+  assert (Hsb4 : Forall is_bd (sblock s4)) by (rewrite (eqf_get sblock _ _ (fun _ => eq_refl) F4), (eqd_get sblock _ _ (fun _ => eq_refl) E3); exact Hsb).
+  rewrite (cub_bd _ _ s4 Hsb4).
+  set (s4p := s4 <| sblock ::= pop |>).
+  assert (H4p : QS s s4p) by (eapply QS_trans; [exact H3|]; eapply QS_trans; [exact H4|]; apply QS_setter; [reflexivity|reflexivity|exact (proj1 H4)]).
+  assert (Hf4 : fmt s4p = FX) by (unfold fmt; change (format s4p) with (format s4); rewrite (eqf_get format _ _ (fun _ => eq_refl) F4); exact Hf3).
+  set (pb := match dtag_cmd (sc_tag sc) s3 with [] => PNormal | _ => PBlock end).
+  pose proof (QS_end_par pb s4p Hf4 (proj1 H4p)) as H5.
+  assert (Hf5 : fmt (end_par pb s4p) = FX).
+  { unfold end_par. destruct (par s4p); [|exact Hf4]. cbv zeta. destruct (_ && _).
+    - unfold end_stanza. change (fmt (process_paragraph s4p)) with (fmt s4p). rewrite Hf4. unfold X.end_stanza, X.end_paragraph.
+      change (fmt (w (R "</p>" ++ NLs) (w (R "</span>" ++ NLs) (process_paragraph s4p)) <| verse := false |>)) with (fmt (w (R "</p>" ++ NLs) (w (R "</span>" ++ NLs) (process_paragraph s4p)))).
+      rewrite !Inv.fmt_w. exact Hf4.
+    - unfold end_paragraph. change (fmt (process_paragraph s4p)) with (fmt s4p). rewrite Hf4. unfold X.end_paragraph. destruct pb; rewrite ?Inv.fmt_w; exact Hf4. }
+  set (s5 := end_par pb s4p) in *. clearbody s5.
+  unfold end_display_block. rewrite Hf5. unfold X.end_display_block.
+  eapply QS_trans; [exact H4p|]. eapply QS_trans; [exact H5|].
+  destruct (sc_tag sc); (eapply QS_trans; [apply QS_w, H5|apply QS_setter; [reflexivity|reflexivity|apply QS_w, H5]]).
+Qed.
+
+(* closeUnclosedScopes(scopeBlock) on display blocks: one diagnostic each, all closed *)
+Theorem open_blocks_are_reported cur : forall f s, P true s -> quiet s = false -> (List.length (sblock s) <= f)%nat ->
+  let s' := close_block_loop f cur s in
+  exists ds, diags s' = ds ++ diags s /\ List.length ds = List.length (sblock s) /\
+             Forall (fun d => d_kind d = R "unclosed scope") ds /\ sblock s' = [].
+Proof. induction f as [|f IH]; intros s HP Hq Hl.
+  - cbn. assert (E : sblock s = []) by (destruct (sblock s); [reflexivity|cbn in Hl; lia]). exists []. rewrite E. repeat split; constructor.
+  - cbn [close_block_loop]. destruct (top (sblock s)) as [sc|] eqn:Etop.
+    2:{ pose proof (top_none _ Etop) as E. exists []. rewrite E. cbn. repeat split; constructor. }
+    assert (Hbd : is_bd sc) by (destruct HP as (_ & Hsb & _); rewrite Forall_forall in Hsb; apply Hsb, (top_in _ _ Etop)).
+    unfold is_bd in Hbd. rewrite Hbd. change (str_eqb (R "Bd") (R "Bl") || str_eqb (R "Bd") (R "It")) with false. cbv iota.
+    set (sm := s <| macro := cur |>).
+    destruct (err_not_quiet "unclosed scope" sm Hq) as (d & Ed & Hk). unfold warn_unclosed. rewrite Ed.
+    set (s2 := sm <| diags ::= cons d |> <| macro := R "Ed" |> <| args := tag_args (sc_tag sc) |>).
+    change (quiet s2) with (quiet s). rewrite Hq.
+    set (s2q := s2 <| quiet := true |>).
+    assert (HP2q : P true s2q) by (apply (P_same K BASE MD true _ s); [destruct s; reflexivity|reflexivity|reflexivity|reflexivity|exact HP]).
+    destruct (macro_ed_P K BASE MD true s2q HP2q) as [HPe He]. destruct (He eq_refl) as (Hpop & _).
+    pose proof (QS_macro_ed s2q HP2q eq_refl) as [_ Hd].
+    set (s3 := macro_ed s2q <| quiet := false |> <| args := [] |>).
+    assert (HP3 : P true s3) by (apply (P_same K BASE MD true _ (macro_ed s2q)); [unfold s3; destruct (macro_ed s2q); reflexivity|reflexivity|reflexivity|reflexivity|exact HPe]).
+    assert (Hsb3 : sblock s3 = pop (sblock s)) by exact Hpop.
+    destruct (IH s3 HP3 eq_refl) as (ds & A & B & C & D); [rewrite Hsb3, pop_length; lia|].
+    cbv zeta in A, B, C, D. exists (ds ++ [d]). rewrite A. change (diags s3) with (diags (macro_ed s2q)). rewrite Hd.
+    change (diags s2q) with (d :: diags s). rewrite <- app_assoc. split; [reflexivity|].
+    split; [rewrite app_length, B, Hsb3, pop_length; cbn [List.length]; destruct (sblock s) as [|x r]; [discriminate Etop|cbn [List.length]; lia]|].
+    split; [apply Forall_app; split; [exact C|constructor; [exact Hk|constructor]]|exact D].
+Qed.
+End Blocks.
 Print Assumptions open_conditionals_are_reported.
